@@ -96,6 +96,14 @@ def scenario(seed, sid, n_steps=30, p_fault=0.35, restart=False, async_p=0.15, t
             steps.append({"op": "close", "mid": "1.1"})      # streams repeat CLOSED books
         if rnd.random() < 0.3:
             steps += [{"op": "book", "mid": "1.1", "k": 99}, {"op": "close", "mid": "1.1"}]   # data again, then closed again
+        if rnd.random() < 0.5:
+            # recorder mode: the closure worker has marked the market cleared, then raw dict updates arrive for it
+            # (prices only / a definition), then it closes again through a raw CLOSED definition
+            steps += [{"op": "cleared", "mid": "1.1"}, {"op": "raw", "mid": "1.1", "kind": rnd.choice(["prices", "prices", "def_open", "def_suspended"])}]
+            if rnd.random() < 0.6:
+                steps += [{"op": "raw", "mid": "1.1", "kind": "def_closed"}]
+                if rnd.random() < 0.5:
+                    steps += [{"op": "cleared", "mid": "1.1"}, {"op": "raw", "mid": "1.1", "kind": "prices", "k": 1}]
         if rnd.random() < 0.6:
             # the hour rule: time passes, the market re-opens and closes again, a second market closes later
             steps += [{"op": "advance", "seconds": rnd.choice([600, 3000, 3500, 3700, 5000])}]
